@@ -164,7 +164,7 @@ Theorem C13_validate_accept_has_signature : forall T zq x64 virt inst ops,
   validate T zq x64 virt inst ops = E_Ok ->
   exists iflags avx sidx scnt st rest,
     nth (N.to_nat (vi_id inst)) (vt_inst T) (0, 0, 0, 0) = (iflags, avx, sidx, scnt) /\
-    xlat_all T x64 virt avx ops init_xstate = inr (st, rest) /\
+    xlat_all T x64 virt iflags avx ops init_xstate = inr (st, rest) /\
     forallb is_none rest = true /\
     (scnt = 0 \/ exists s, In s (inst_sigs T sidx scnt) /\ test (is_mode s) (mode_bit x64) = true /\
                             match_sig T zq (mode_bit x64) (xs_sigs st) s = Some false).
@@ -263,7 +263,7 @@ Theorem C13_db_row_validates : forall row, In row x86_db_rows ->
   vi_id inst = dr_inst row ->
   nth (N.to_nat (dr_inst row)) (vt_inst x86_vtables) (0, 0, 0, 0) = (iflags, avx, sidx, scnt) ->
   test (dr_mode row) (mode_bit x64) = true ->
-  xlat_all x86_vtables x64 virt avx ops init_xstate = inr (st, rest) ->
+  xlat_all x86_vtables x64 virt iflags avx ops init_xstate = inr (st, rest) ->
   forallb is_none rest = true ->
   fits_all (explicit_ops (dr_ops row)) (xs_sigs st) = true ->
   lock_stage (vi_options inst) iflags (first_is_mem ops) = E_Ok ->
@@ -286,7 +286,7 @@ Theorem C13_db_row_validates_plain : forall row, In row x86_db_rows ->
   vi_id inst = dr_inst row -> vi_options inst = 0 -> vi_extra_type inst = 0 ->
   nth (N.to_nat (dr_inst row)) (vt_inst x86_vtables) (0, 0, 0, 0) = (iflags, avx, sidx, scnt) ->
   test (dr_mode row) (mode_bit x64) = true ->
-  xlat_all x86_vtables x64 virt avx ops init_xstate = inr (st, rest) ->
+  xlat_all x86_vtables x64 virt iflags avx ops init_xstate = inr (st, rest) ->
   forallb is_none rest = true ->
   fits_all (explicit_ops (dr_ops row)) (xs_sigs st) = true ->
   mode_stage x64 0 st = E_Ok ->
@@ -350,3 +350,55 @@ Proof.
            (forallb_In _ (rep_decor_premises_both x86_vtables) x86_db_rows_decorated x86_rep_decor_premises dr Hin)).
 Qed.
 Print Assumptions C13_db_rows_decorated_representatives_validate.
+
+(* ---- for ALL instructions, option words and operand lists: a vector register xmm/ymm/zmm16..31 among the operands (before the first empty slot) of an instruction
+   that has no EVEX encoding makes validation fail (rule 4824306; the assembler refuses the same since bcef3b8) *)
+Theorem C13_validate_refuses_vec16_without_evex : forall T zq x64 virt inst pre rt id post iflags avx sidx scnt,
+  nth (N.to_nat (vi_id inst)) (vt_inst T) (0, 0, 0, 0) = (iflags, avx, sidx, scnt) ->
+  test iflags IF_Evex = false ->
+  (forall o, In o pre -> o <> ONone) -> 16 <= id < 32 -> RT_Vec128 <= rt <= RT_Vec512 ->
+  validate T zq x64 virt inst (pre ++ OReg rt id :: post) <> E_Ok.
+Proof. exact validate_refuses_vec16_without_evex. Qed.
+Print Assumptions C13_validate_refuses_vec16_without_evex.
+
+Example C13_validate_refuses_vec16_example : exists id,
+  test (fst (fst (fst (nth id (vt_inst x86_vtables) (0, 0, 0, 0))))) IF_Evex = false /\
+  validate x86_vtables false true false {| vi_id := N.of_nat id; vi_options := 0; vi_extra_type := 0; vi_extra_id := 0 |} [OReg 11 16; OReg 11 1; OReg 11 2] = E_InvalidPhysId /\
+  validate x86_vtables false true false {| vi_id := N.of_nat id; vi_options := 0; vi_extra_type := 0; vi_extra_id := 0 |} [OReg 11 15; OReg 11 1; OReg 11 2] = E_Ok.
+Proof. exact x86_vec16_example_ex. Qed.
+
+(* ---- what must NOT matter: empty operand slots appended to the operand list. The emitters hand validate() all six slots, InstAPI callers the exact count;
+   for ALL tables, instructions and operand lists the verdict (error code included) is the same *)
+Theorem C13_validate_padding_invariant : forall T zq x64 virt inst ops k,
+  validate T zq x64 virt inst (ops ++ repeat ONone k) = validate T zq x64 virt inst ops.
+Proof. exact validate_padding_invariant. Qed.
+Print Assumptions C13_validate_padding_invariant.
+
+(* non-vacuity of the list-quantified theorems: none of the generated lists is empty *)
+Example C13_generated_lists_nonempty :
+  (x86_db_rows <> [] /\ x86_db_decorations <> []) /\ x86_db_rows_decorated <> [] /\
+  negb (N.of_nat (length x86_implemented_forms) =? 0) && negb (N.of_nat (length x86_excluded_forms) =? 0) = true.
+Proof. exact (conj x86_db_rows_nonempty (conj x86_db_rows_decorated_nonempty x86_form_lists_nonempty)). Qed.
+
+(* ---- what validate never accepts, for ALL tables and inputs: an undefined instruction id (error code kInvalidInstruction), and an operand list with a gap
+   (an empty slot followed by a non-empty operand: [reg, none, reg]) *)
+Theorem C13_validate_refuses_undefined_id : forall T zq x64 virt inst ops,
+  vt_count T <= vi_id inst -> validate T zq x64 virt inst ops = E_InvalidInstruction.
+Proof. exact validate_undefined_id. Qed.
+Print Assumptions C13_validate_refuses_undefined_id.
+
+Theorem C13_validate_refuses_gap : forall T zq x64 virt inst pre post op,
+  (forall o, In o pre -> o <> ONone) -> In op post -> op <> ONone ->
+  validate T zq x64 virt inst (pre ++ ONone :: post) <> E_Ok.
+Proof. exact validate_refuses_gap. Qed.
+Print Assumptions C13_validate_refuses_gap.
+
+(* ---- code of validate() re-read from the SOURCE TEXT on every run (translator for code, not only for tables): the cases of `switch (mem_size)` (size -> OpFlags bit) are
+   exactly the model's mem_size_flag (both directions, sizes 0..199), and the immediate classification ladder of the kImm case (value on both sides of every threshold of the
+   non-negative and the negative branch -> OpFlags set) is the model's imm_flags *)
+Theorem C13_validator_code_cases_match_source :
+  (forallb (fun c => match mem_size_flag (fst c) with Some f => f =? snd c | None => false end) x86_mem_size_cases &&
+   forallb (fun sz => match mem_size_flag sz with Some _ => existsb (fun c => fst c =? sz) x86_mem_size_cases | None => true end) (nseq_v 0 200) = true) /\
+  forallb (fun q => imm_flags (fst q) =? snd q) x86_imm_ladder_points = true.
+Proof. exact (conj x86_mem_size_cases_ok x86_imm_ladder_ok). Qed.
+Print Assumptions C13_validator_code_cases_match_source.
